@@ -5,6 +5,7 @@ import (
 	"fmt"
 	"strings"
 	"sync"
+	"unicode"
 
 	"github.com/fiorix/go-diameter/diam/sm"
 
@@ -77,6 +78,11 @@ func (context *CHFContext) NewCHFUe(supi string) (*ChfUe, error) {
 	if len(supi)+len(".cdr") > 255 || strings.ContainsRune(supi, 0) {
 		// the CDR file of the subscriber is named after the supi: a file name holds 255 octets and no NUL
 		return nil, fmt.Errorf(" add Ue context fail: supi cannot name a CDR file ")
+	}
+	if strings.IndexFunc(supi, unicode.IsControl) >= 0 {
+		// the supi goes into the command line of the CDR transfer (STOR <supi>.cdr): a line break in it would be
+		// read by the FTP server as the start of further commands
+		return nil, fmt.Errorf(" add Ue context fail: supi contains a control character ")
 	}
 	if ue, ok := context.ChfUeFindBySupi(supi); ok {
 		return ue, nil
